@@ -256,6 +256,19 @@ template <class D> void add_common_ops(ObjHarness<D>& H) {
     PREPF { D* x = e.o[0]; dimension_type n = x->space_dimension(); long mask = c.mod(64); Variables_Set vs;
             for (dimension_type i = 0; i < n; ++i) if (mask & (1L << i)) vs.insert(Variable(i));
             return [x, vs]() { x->unconstrain(vs); return std::string(); }; } });
+  // "drops some": any result between {points of x that are integral on the chosen variables} and x itself
+  H.add({ "drop_some_non_integer_points", 1, F_FAULT, 2,
+    GENF { op.a.push_back(r.chance(30) ? 0 : r.range(1, 63)); op.a.push_back(r.range(0, 2)); },
+    PREPF { D* x = e.o[0]; dimension_type n = x->space_dimension(); long mask = c.mod(64); Variables_Set vs; bool all = mask == 0;
+            for (dimension_type i = 0; i < n; ++i) if (all || (mask & (1L << i))) vs.insert(Variable(i));
+            static const PPL::Complexity_Class CC[3] = { PPL::POLYNOMIAL_COMPLEXITY, PPL::SIMPLEX_COMPLEXITY, PPL::ANY_COMPLEXITY };
+            PPL::Complexity_Class cc = CC[c.mod(3)];
+            return [x, vs, all, cc]() { Bits pre; if (g_def.active) { FaultPause fp; pre = defbits(*x); }
+              if (all) x->drop_some_non_integer_points(cc); else x->drop_some_non_integer_points(vs, cc);
+              if (g_def.active) { FaultPause fp; dimension_type n = x->space_dimension(); auto& pv = g_def.probes->of(n); Bits lower = pre;
+                for (size_t i = 0; i < pv.size() && i < lower.size(); ++i) if (lower[i]) for (Variables_Set::const_iterator v = vs.begin(); v != vs.end(); ++v) if (pv[i][*v].get_den() != 1) { lower[i] = false; break; }
+                def_expect_between(n == 0 ? "drop_some_non_integer_points-zero-dim" : "drop_some_non_integer_points", n, lower, defbits(*x), pre); }
+              return std::string(); }; } });
   H.add({ "topological_closure_assign", 1, F_VAL | F_FAULT, 2, NOGEN,
     PREPF { D* x = e.o[0]; return [x]() { x->topological_closure_assign(); return std::string(); }; } });
   // ---------------------------------------------------------------- dimensions
